@@ -87,7 +87,7 @@ CLAIMED = {
  "C17": dict(
    text="Same specification and executions as C16, judged on C17's clauses: after every event of a started, not stopping member there is a request of the join protocol outstanding, or consumers being shut down for a join, or a delayed rejoin on the clock, or the heartbeat looper running with no rejoin wanted (checked on the model state and, independently, on the observed outstanding calls and timers of the real object); every error kind on every request leads to the rejoin delay of the documented table (retry / initial / fatal backoff); errors that are not Kafka errors surface on the start Deferred.",
    ref="DESIGN.md 0.9, 6.7, 7 (C17)",
-   note="Liveness is judged as the state invariant 'never idle' plus finite executions; no temporal property is model-checked. Known finding (known_findings.json F-G1-*): a non-Kafka failure of the coordinator lookup, the join's metadata load or the leader's partition lookup is swallowed and wedges the member; the pinned tests rely on that swallowing. The leader's partition lookup (KafkaClient._load_topic_partitions, its own retry loop) is checked on the real client over the simulated cluster with PartsLookup.tla as scenario/expectation generator: every sequence (length <= 3, thorough 4) of metadata answers showing either requested topic in error or not; the lookup must ask again after each bad answer and complete with the partitions of the first good one."),
+   note="Liveness: the state invariant 'never idle' on the bounded design model and on every recorded execution, plus the temporal property C17_settles of Group_Live.tla (same Step, histories dropped, generations recycled, complete state space under the constraint of at most 3 pending rejoin timers): (<>[] only fault-free steps) => <>[] (stable member, or stopped / failed), under weak fairness of every kind of fault-free event; it holds for the design and is violated, as it must be, when the recorded finding is switched on. Known finding (known_findings.json F-G1-*): a non-Kafka failure of the coordinator lookup, the join's metadata load or the leader's partition lookup is swallowed and wedges the member; the pinned tests rely on that swallowing. The leader's partition lookup (KafkaClient._load_topic_partitions, its own retry loop) is checked on the real client over the simulated cluster with PartsLookup.tla as scenario/expectation generator: every sequence (length <= 3, thorough 4) of metadata answers showing either requested topic in error or not; the lookup must ask again after each bad answer and complete with the partitions of the first good one."),
 }
 PENDING_REASON = "check not built yet in this round (framework under construction; see DESIGN.md section 12 for the order)"
 
